@@ -20,6 +20,10 @@ import (
 
 var errRead = errors.New("sentinel read error")
 
+// errReadEOF is a read error that is not io.EOF but wraps it (errors.Is(err, io.EOF) holds): "an error other than
+// io.EOF" all the same — the source did not end, the connection did
+var errReadEOF = fmt.Errorf("connection lost: %w", io.EOF)
+
 // faultScanner fails every ReadRune at rune offset ≥ k.
 type faultScanner struct {
 	rs        []rune
@@ -27,12 +31,16 @@ type faultScanner struct {
 	delivered bool
 	lastW     int
 	once      bool // transient fault: only the first read at offset k fails
+	err       error
 }
 
 func (f *faultScanner) ReadRune() (rune, int, error) {
 	if f.off >= f.k && !(f.once && f.delivered) {
 		f.delivered = true
 		f.lastW = 0
+		if f.err != nil {
+			return 0, 0, f.err
+		}
 		return 0, 0, errRead
 	}
 	if f.off >= len(f.rs) {
@@ -58,11 +66,15 @@ type faultReader struct {
 	b         []byte
 	off, k    int
 	delivered bool
+	err       error
 }
 
 func (f *faultReader) Read(p []byte) (int, error) {
 	if f.off >= f.k {
 		f.delivered = true
+		if f.err != nil {
+			return 0, f.err
+		}
 		return 0, errRead
 	}
 	n := copy(p, f.b[f.off:f.k])
@@ -74,6 +86,7 @@ type c10Case struct {
 	Src  string `json:"source"`
 	K    int    `json:"fault_at"`
 	Kind string `json:"reader"`
+	Wrap bool   `json:"error_wraps_eof,omitempty"`
 }
 
 type c10Ref struct {
@@ -86,11 +99,15 @@ func c10Judge(c c10Case, ref c10Ref) string {
 	var src interface{}
 	var fs *faultScanner
 	var fr *faultReader
+	sentinel := errRead
+	if c.Wrap {
+		sentinel = errReadEOF
+	}
 	if c.Kind == "RuneScanner" {
-		fs = &faultScanner{rs: rs, k: c.K}
+		fs = &faultScanner{rs: rs, k: c.K, err: sentinel}
 		src = fs
 	} else {
-		fr = &faultReader{b: []byte(c.Src), k: len(string(rs[:c.K]))}
+		fr = &faultReader{b: []byte(c.Src), k: len(string(rs[:c.K])), err: sentinel}
 		src = fr
 	}
 	var d string
@@ -117,8 +134,8 @@ func c10Judge(c c10Case, ref c10Ref) string {
 		return fmt.Sprintf("the reader fails from rune %d, inside the %d runes of the command, yet ParseCommands returns a nil error (%s)", c.K, ref.consumed, d)
 	case err == nil && d != ref.dump:
 		return fmt.Sprintf("nil error with a result built from truncated input: %s instead of %s", d, ref.dump)
-	case err != nil && !errors.Is(err, errRead):
-		return fmt.Sprintf("the reader fails from rune %d with the sentinel error, ParseCommands reports %q instead (not errors.Is the read error)", c.K, err.Error())
+	case err != nil && !errors.Is(err, sentinel):
+		return fmt.Sprintf("the reader fails from rune %d with the sentinel error %q, ParseCommands reports %q instead (not errors.Is the read error)", c.K, sentinel, err.Error())
 	}
 	return ""
 }
@@ -139,8 +156,8 @@ func c10Sentence(w *W, src string) {
 	w.Sample(map[string]string{"source": src})
 	n := len([]rune(src))
 	for k := 0; k <= n; k++ {
-		for _, kind := range []string{"RuneScanner", "Reader"} {
-			c := c10Case{src, k, kind}
+		for _, kind := range []string{"RuneScanner", "Reader", "RuneScanner/wraps-EOF"} {
+			c := c10Case{Src: src, K: k, Kind: strings.TrimSuffix(kind, "/wraps-EOF"), Wrap: strings.HasSuffix(kind, "/wraps-EOF")}
 			w.Count("evaluations", 1)
 			w.Count("transitions", 1)
 			w.Count("traces_validated_against_impl", 1)
@@ -238,7 +255,7 @@ func init() {
 	register(&check{
 		id:    "C10",
 		level: "fault_enumeration",
-		rule: "every accepted sentence among all strings ≤ 3 (quick) / 4 (thorough) over Σcore+5 and the derivation sets D0, D1, word menu (thorough: D2) in canonical and tight layout × every rune index k ∈ [0, len] at which the reader starts failing × {io.RuneScanner, io.Reader}: the complete set of single-fault positions; additionally every sentence of the string space that the parser REJECTS and every accepted one under a transient (one-shot) fault at every k: the call must return, with a non-nil error that is the read error or a parser.Error; " +
+		rule: "every accepted sentence among all strings ≤ 3 (quick) / 4 (thorough) over Σcore+5 and the derivation sets D0, D1, word menu (thorough: D2) in canonical and tight layout × every rune index k ∈ [0, len] at which the reader starts failing × {io.RuneScanner, io.Reader, io.RuneScanner with an error that wraps io.EOF}: the complete set of single-fault positions; additionally every sentence of the string space that the parser REJECTS and every accepted one under a transient (one-shot) fault at every k: the call must return, with a non-nil error that is the read error or a parser.Error; " +
 			"non-trivial = every base sentence (each is explored at all of its positions)",
 		assume: []string{"a fault is 'delivered' when the RuneScanner wrapper returned the sentinel; for io.Reader (wrapped in bufio by go.sh) delivery to the parser is not observable, so the rule is: nil error only with the fault-free result and only if k is not inside the consumed text, otherwise errors.Is(err, sentinel)"},
 		run:    c10Run,
